@@ -30,6 +30,10 @@ CHECKS['C03'] = dict(cat='fault_enumeration', ref='4 C03',
    text='For every generated program/query the complete set of abandonment points is executed on the same engine and variables: exhaust, close/drop/consumer-throw after every k-th answer, a user predicate raising at every entry/resume of a full run, each also under outer unifications held open. An invariant monitor on a weak registry of all Variables (hooked on Variable.__init__) checks after finalisation that the binding state equals the state before, that every internally created variable is unbound, that nothing reached sys.unraisablehook and that every run reproduces the reference answers.',
    note='Trusted: reference interpreters A and B for the expected answers; "afterwards" read as after generator finalisation (CPython reference counting; a needed gc.collect() is counted and accepted). Fault space enumerated per program is complete for n <= 8 answers and <= 30 user-predicate events.',
    tech='invariant monitor at a hook (Variable registry, unraisable hook) under enumerated abandonment/fault points')
+CHECKS['C20'] = dict(cat='exploration', ref='4 C20',
+   text='Configuration-differential monitor: the same query on an all-compiled engine and on an engine where a random subset of fact predicates is registered as Python generators (inferred/explicit/variadic arity, yield True/False, before/after load, next to dynamic facts) must give the reference answers; a recording wrapper inside each Python predicate observes the arguments received in call order (checked against the reference call trace) and a raising predicate must deliver the same exception object to the consumer.',
+   note='Trusted: reference interpreters A and B (must agree); Python predicates are written in the documented unify/yield style with fresh variables per call.',
+   tech='runtime differential monitoring across configurations with recorded call trace and exception identity check')
 PENDING = {}
 
 def main():
